@@ -197,7 +197,7 @@ func emitX(id int, data []byte) {
 	fmt.Fprintf(out, "X\tx%d\t%s\t%s\t%s\n", id, hx.Hex(data), xc, xl)
 }
 
-func corr(seed uint64, n, nt, nh, exh int) {
+func corr(seed uint64, n, nt, nh, nn, exh int) {
 	id := 0
 	// exhaustive small scope: one message, every payload over the escape alphabet up to exh bytes
 	for _, t := range []uint{0, 3, 128, 255} {
@@ -243,6 +243,7 @@ func corr(seed uint64, n, nt, nh, exh int) {
 	}
 	corrTyped(hx.NewRng(seed^0x7C17), &id, nt)
 	corrHistory(hx.NewRng(seed^0x417C17), &id, nh)
+	corrNalu(hx.NewRng(seed^0x9A17C17), &id, nn)
 }
 
 // ---------------------------------------------------------------- search
@@ -384,7 +385,7 @@ func checkList(ms []*rawMsg) {
 	}
 }
 
-func search(seed uint64, n, nt, nh, exh int) {
+func search(seed uint64, n, nt, nh, nn, exh int) {
 	// small scope first (so that a failing input, if any, is reported with a minimal witness):
 	// all pairs of messages over boundary types with payloads up to 2 bytes
 	for _, t1 := range []uint{0, 3, 0x80, 255} {
@@ -422,6 +423,10 @@ func search(seed uint64, n, nt, nh, exh int) {
 	for i := 0; i < nh; i++ {
 		checkHistory(rh, i)
 	}
+	rn := hx.NewRng(seed ^ 0x9EA17)
+	for i := 0; i < nn; i++ {
+		checkNalu(rn)
+	}
 	fmt.Fprintf(out, "EVALS\t%d\n", evals)
 }
 
@@ -436,13 +441,14 @@ func main() {
 	exh := fs.Int("exh", 3, "")
 	nt := fs.Int("nt", 1000, "")
 	nh := fs.Int("nh", 1000, "")
+	nn := fs.Int("nn", 1000, "")
 	_ = fs.Parse(os.Args[2:])
 	defer out.Flush()
 	switch os.Args[1] {
 	case "corr":
-		corr(*seed, *n, *nt, *nh, *exh)
+		corr(*seed, *n, *nt, *nh, *nn, *exh)
 	case "search":
-		search(*seed, *n, *nt, *nh, *exh)
+		search(*seed, *n, *nt, *nh, *nn, *exh)
 	default:
 		fmt.Fprintln(os.Stderr, "unknown sub-command")
 		out.Flush()
